@@ -1,286 +1,20 @@
 #!/venv/bin/python
-"""Mechanised behaviour-preserving variants of the whole tree, to test the checks for dependence on spelling.
+"""Write a mechanically rewritten (behaviour-preserving) copy of the repository to a scratch directory.
 
-usage: alpha_rename.py <src-tree> <dst-tree> <mode>
-  mode = unparse   every file under src/ is re-rendered by ast.unparse (layout, comments, quoting change; program identical)
-         locals    + every purely local variable of every function is renamed (`x` -> `x_lv`)
-         params    + locals, and the parameters of private functions / methods whose every call in the repo is positional
-                   (hook methods of libcst classes excluded: libcst calls them positionally, so they are renamed too)
-
-The renaming is deliberately conservative (a name is left alone whenever a nested scope binds it, it is declared global / nonlocal,
-it is used in a class body nested in the function, or it appears in a string handed to eval/locals() -- none in this repo).
-The result must keep the test suite's passing set (tools/baseline_check.py <dst>) and every /verif check must report exactly what it
-reports on the unmodified tree (VERIF_REPO=<dst> sa/run.py ...).
+usage: alpha_rename.py <src-tree> <dst-tree> <mode>      mode: one of sa/metamorph.py MODES
+The rewrites themselves live in /verif/sa/metamorph.py (the thorough tier applies them in memory); this tool exists to validate them
+outside the checker: the rewritten tree must keep the test suite's passing set, and `VERIF_REPO=<dst> sa/run.py <ID>` must report what
+it reports on the unmodified tree.
 """
-import ast, shutil, sys
+import shutil, sys
 from pathlib import Path
 
+sys.path.insert(0, str(Path(__file__).resolve().parent.parent))
+from sa.metamorph import tree_overlay  # noqa: E402
+
 src, dst, mode = Path(sys.argv[1]), Path(sys.argv[2]), sys.argv[3]
-SUFFIX = "_lv"
-
-
-def bound_names_in_scope(fn):
-    """names bound directly in the function's own scope (not parameters), and names a nested scope binds itself"""
-    own, nested_bound, blocked = set(), set(), set()
-
-    def targets(t):
-        if isinstance(t, ast.Name):
-            yield t.id
-        elif isinstance(t, (ast.Tuple, ast.List)):
-            for e in t.elts:
-                yield from targets(e)
-        elif isinstance(t, ast.Starred):
-            yield from targets(t.value)
-
-    def walk(node, depth):
-        for ch in ast.iter_child_nodes(node):
-            if isinstance(ch, (ast.FunctionDef, ast.AsyncFunctionDef, ast.Lambda)):
-                a = ch.args
-                for p in a.posonlyargs + a.args + a.kwonlyargs + ([a.vararg] if a.vararg else []) + ([a.kwarg] if a.kwarg else []):
-                    nested_bound.add(p.arg)
-                if not isinstance(ch, ast.Lambda):
-                    (own if depth == 0 else nested_bound).add(ch.name)
-                    blocked.add(ch.name)
-                # bindings inside the nested function belong to it
-                for n in ast.walk(ch):
-                    if isinstance(n, ast.Name) and isinstance(n.ctx, (ast.Store, ast.Del)):
-                        nested_bound.add(n.id)
-                    elif isinstance(n, (ast.Global, ast.Nonlocal)):
-                        blocked.update(n.names)
-                    elif isinstance(n, ast.ExceptHandler) and n.name:
-                        nested_bound.add(n.name)
-                    elif isinstance(n, (ast.MatchAs, ast.MatchStar)) and n.name:
-                        nested_bound.add(n.name)
-                    elif isinstance(n, ast.MatchMapping) and n.rest:
-                        nested_bound.add(n.rest)
-                continue
-            if isinstance(ch, ast.ClassDef):
-                blocked.add(ch.name)
-                for n in ast.walk(ch):
-                    if isinstance(n, ast.Name):
-                        blocked.add(n.id)
-                continue
-            if isinstance(ch, (ast.ListComp, ast.SetComp, ast.DictComp, ast.GeneratorExp)):
-                # comprehension targets are local to the comprehension: treat like a nested scope
-                for g in ch.generators:
-                    nested_bound.update(targets(g.target))
-                walk(ch, depth + 1)
-                continue
-            if isinstance(ch, ast.Name) and isinstance(ch.ctx, (ast.Store, ast.Del)):
-                (own if depth == 0 else nested_bound).add(ch.id)
-            elif isinstance(ch, (ast.Global, ast.Nonlocal)):
-                blocked.update(ch.names)
-            elif isinstance(ch, ast.ExceptHandler) and ch.name:
-                blocked.add(ch.name)  # plain string, not a Name node: leave alone
-            elif isinstance(ch, (ast.MatchAs, ast.MatchStar)) and ch.name:
-                blocked.add(ch.name)
-            elif isinstance(ch, ast.MatchMapping) and ch.rest:
-                blocked.add(ch.rest)
-            elif isinstance(ch, (ast.Import, ast.ImportFrom)):
-                for al in ch.names:
-                    blocked.add((al.asname or al.name).split(".")[0])
-            elif isinstance(ch, ast.NamedExpr) and depth > 0 and isinstance(ch.target, ast.Name):
-                blocked.add(ch.target.id)  # walrus inside a comprehension binds in the enclosing function: leave alone
-            walk(ch, depth)
-
-    walk(fn, 0)
-    a = fn.args
-    params = {p.arg for p in a.posonlyargs + a.args + a.kwonlyargs + ([a.vararg] if a.vararg else []) + ([a.kwarg] if a.kwarg else [])}
-    fn._scope_sets = (own, nested_bound, blocked)
-    return own - params - nested_bound - blocked, params
-
-
-def scope_sets(fn):
-    return fn._scope_sets
-
-
-class Renamer(ast.NodeTransformer):
-    def __init__(self, names):
-        self.names = names
-
-    def visit_Name(self, n):
-        if n.id in self.names:
-            n.id = n.id + SUFFIX
-        return n
-
-
-def top_functions(tree):
-    """every function / method that is not nested inside another function"""
-    out = []
-
-    def rec(node):
-        for ch in ast.iter_child_nodes(node):
-            if isinstance(ch, (ast.FunctionDef, ast.AsyncFunctionDef)):
-                out.append(ch)
-            elif isinstance(ch, (ast.ClassDef, ast.If, ast.Try, ast.With)):
-                rec(ch)
-
-    rec(tree)
-    return out
-
-
-def keyword_names():
-    """every keyword-argument name used in any call under src/ or tests/ (a parameter with such a name is left alone)"""
-    kw = set()
-    for root in (src / "src", src / "tests", src / "integration_tests"):
-        for f in root.rglob("*.py"):
-            try:
-                t = ast.parse(f.read_text())
-            except SyntaxError:
-                continue
-            for n in ast.walk(t):
-                if isinstance(n, ast.keyword) and n.arg:
-                    kw.add(n.arg)
-                elif isinstance(n, ast.Constant) and isinstance(n.value, str) and n.value.isidentifier():
-                    kw.add(n.value)  # names that travel as strings (getattr, **{...}, fixtures)
-    return kw
-
-
-KW = keyword_names() if mode.startswith("params") else set()
-HOOK_PREFIXES = ("visit_", "leave_", "on_visit", "on_leave")
-
-
-def renamable_params(fn, nested_bound_or_blocked):
-    if fn.name.startswith("__") or (mode == "params-nohooks" and fn.name.startswith(HOOK_PREFIXES)):
-        return set()
-    if any(isinstance(d, ast.Name) and d.id in ("property", "fixture") or isinstance(d, ast.Attribute) and d.attr in ("fixture", "setter") for d in fn.decorator_list):
-        return set()
-    a = fn.args
-    ps = [p.arg for p in a.posonlyargs + a.args]
-    return {p for p in ps if p not in ("self", "cls", "mcs") and p not in KW and not p.startswith("_") and p not in nested_bound_or_blocked}
-
-
-class ParamRenamer(ast.NodeTransformer):
-    def __init__(self, names, top):
-        self.names, self.top = names, top
-
-    def visit_Name(self, n):
-        if n.id in self.names:
-            n.id = n.id + "_pv"
-        return n
-
-    def visit_arg(self, n):
-        return n
-
-
 shutil.copytree(src, dst, ignore=shutil.ignore_patterns(".git", "__pycache__", "*.pyc", ".pytest_cache"), symlinks=True)
-n_files = n_fn = n_names = n_params = 0
-for f in sorted((dst / "src").rglob("*.py")):
-    text = f.read_text()
-    try:
-        tree = ast.parse(text)
-    except SyntaxError:
-        continue
-    if mode in ("locals", "params", "params-nohooks"):
-        for fn in top_functions(tree):
-            all_names = {n.id for n in ast.walk(fn) if isinstance(n, ast.Name)} | {a.arg for a in ast.walk(fn) if isinstance(a, ast.arg)}
-            names, params = bound_names_in_scope(fn)
-            names = {n for n in names if n + SUFFIX not in all_names and not n.startswith("__")}
-            # a keyword argument `f(x=x)` is an ast.keyword (string) + Name: only the Name is renamed, which is what we want
-            if names:
-                Renamer(names).visit(fn)
-                n_fn += 1
-                n_names += len(names)
-            if mode.startswith("params"):
-                own, nested_bound, blocked = scope_sets(fn)
-                ps = {p for p in renamable_params(fn, nested_bound | blocked) if p + "_pv" not in all_names}
-                if ps:
-                    ParamRenamer(ps, fn).visit(fn)
-                    for a in fn.args.posonlyargs + fn.args.args:
-                        if a.arg in ps:
-                            a.arg = a.arg + "_pv"
-                    n_params += len(ps)
-    if mode == "ifswap":
-        # `if A: X else: Y`  ->  `if not A: Y else: X`  (no elif chain on either side; inside functions only)
-        class Swap(ast.NodeTransformer):
-            def visit_If(self, n):
-                self.generic_visit(n)
-                if n.orelse and not (len(n.orelse) == 1 and isinstance(n.orelse[0], ast.If)):
-                    global n_names
-                    n_names += 1
-                    t = n.test.operand if isinstance(n.test, ast.UnaryOp) and isinstance(n.test.op, ast.Not) else ast.UnaryOp(op=ast.Not(), operand=n.test)
-                    return ast.If(test=t, body=n.orelse, orelse=n.body)
-                return n
-        for fn in top_functions(tree):
-            Swap().visit(fn)
-        ast.fix_missing_locations(tree)
-    if mode in ("elsewrap", "unelse", "andsplit"):
-        def exits(body):
-            return bool(body) and isinstance(body[-1], (ast.Return, ast.Raise, ast.Continue, ast.Break))
-
-        def blocks(node):
-            out = []
-
-            def rec(stmts):
-                out.append(stmts)
-                for st in stmts:
-                    if isinstance(st, (ast.FunctionDef, ast.AsyncFunctionDef, ast.ClassDef)):
-                        continue
-                    for field in ("body", "orelse", "finalbody"):
-                        sub = getattr(st, field, None)
-                        if isinstance(sub, list) and sub and isinstance(sub[0], ast.stmt):
-                            rec(sub)
-                    if isinstance(st, ast.Try):
-                        for h in st.handlers:
-                            rec(h.body)
-                    if isinstance(st, ast.Match):
-                        for c in st.cases:
-                            rec(c.body)
-
-            rec(node.body)
-            return out
-
-        for fn in top_functions(tree):
-            changed = True
-            while changed:
-                changed = False
-                for stmts in blocks(fn):
-                    for i, st in enumerate(stmts):
-                        if mode == "elsewrap" and isinstance(st, ast.If) and not st.orelse and exits(st.body) and i + 1 < len(stmts):
-                            # `if c: ...return` + rest  ->  `if c: ...return else: rest`
-                            st.orelse = stmts[i + 1:]
-                            del stmts[i + 1:]
-                            n_names += 1
-                            changed = True
-                            break
-                        if mode == "unelse" and isinstance(st, ast.If) and st.orelse and exits(st.body) and not (len(st.orelse) == 1 and isinstance(st.orelse[0], ast.If)):
-                            # `if c: ...return else: rest`  ->  `if c: ...return` + rest
-                            rest = st.orelse
-                            st.orelse = []
-                            stmts[i + 1:i + 1] = rest
-                            n_names += 1
-                            changed = True
-                            break
-                        if mode == "andsplit" and isinstance(st, ast.If) and not st.orelse and isinstance(st.test, ast.BoolOp) and isinstance(st.test.op, ast.And):
-                            # `if a and b: X`  ->  `if a: if b: X`
-                            first, others = st.test.values[0], st.test.values[1:]
-                            inner = ast.If(test=others[0] if len(others) == 1 else ast.BoolOp(op=ast.And(), values=others), body=st.body, orelse=[])
-                            st.test, st.body = first, [inner]
-                            n_names += 1
-                            changed = True
-                            break
-                    if changed:
-                        break
-        ast.fix_missing_locations(tree)
-    if mode == "rettemp":
-        # `return E`  ->  `result_rt = E; return result_rt`   (E not a bare name / constant)
-        class Ret(ast.NodeTransformer):
-            def visit_FunctionDef(self, n):
-                return n  # nested functions left alone (handled when they are top functions of a class)
-            visit_AsyncFunctionDef = visit_Lambda = visit_FunctionDef
-
-            def visit_Return(self, n):
-                global n_names
-                if n.value is None or isinstance(n.value, (ast.Name, ast.Constant)):
-                    return n
-                n_names += 1
-                return [ast.Assign(targets=[ast.Name(id="result_rt", ctx=ast.Store())], value=n.value, lineno=n.lineno), ast.Return(value=ast.Name(id="result_rt", ctx=ast.Load()))]
-        for fn in top_functions(tree):
-            if any(isinstance(x, (ast.Yield, ast.YieldFrom)) for x in ast.walk(fn)):
-                continue
-            fn.body = [y for st in fn.body for y in (lambda r: r if isinstance(r, list) else [r])(Ret().visit(st))]
-        ast.fix_missing_locations(tree)
-    new = ast.unparse(tree) + "\n"
-    f.write_text(new)
-    n_files += 1
-print(f"{mode}: {n_files} files rewritten, {n_names} local names renamed in {n_fn} functions, {n_params} parameters renamed")
+overlay, stats = tree_overlay(dst, "src", mode)
+for rel, text in overlay.items():
+    (dst / "src" / rel).write_text(text, encoding="utf-8")
+print(f"{mode}: {stats['files']} files rewritten, {stats['rewrites']} rewrites")
